@@ -90,3 +90,26 @@ def x03(ctx):
     rnd = ctx.path("cases-b.ndjson")
     vlib.harness(["gen", "post", ctx.seed, 4000 if q else 60000, rnd])
     vlib.exec_and_judge(ctx, "post", rnd, "Trace_Post", "B", sample_keys=keys)
+
+
+@ext("X04", "chat", "Trace_Chat", "chat template: new / format / ChatDecode")
+def x04(ctx):
+    q = ctx.quick()
+    mm = 3 if q else 4
+    ctx.rule = ("MC: format() as a step machine (one message per step) for all chats up to %d messages over {known role u, known role b, "
+                "unknown role} x {empty text, text} x partial: the fold equals the closed form (start, messages, end unless the last "
+                "message is partial; unknown role or a partial message that is not the last is an error), errors are sticky; A: the same "
+                "chats x 4 templates (without / with start and end; a role template with no and with two {text} patterns, which new() "
+                "must reject) on the real ChatTemplate and through the ChatDecode preprocessing (JSON chat, partial member optional); "
+                "B: random chats incl. the default template, texts containing the pattern itself, quotes, newlines. "
+                "non-trivial = >=2 messages" % mm)
+    ctx.assumptions = ["strings are compared by code points"]
+    vlib.mc(ctx, "MC_Chat", "CONSTANTS MaxMsgs = %d\nSPECIFICATION Spec\nINVARIANTS FoldIsClosedForm ErrorIsSticky\nPROPERTY Terminates\n"
+            "CHECK_DEADLOCK FALSE\n" % mm, name="MC_Chat")
+    cases, n = vlib.tlc_generate(ctx, "Gen_Chat", "CONSTANTS MaxMsgs = %d\nINIT Init\nNEXT Next\nCHECK_DEADLOCK FALSE\n" % mm, "cases-a.ndjson")
+    keys = ["tpl", "newok", "chat", "out"]
+    vlib.exec_and_judge(ctx, "chat", cases, "Trace_Chat", "A", sample_keys=keys)
+    ctx.exhaustive = True
+    rnd = ctx.path("cases-b.ndjson")
+    vlib.harness(["gen", "chat", ctx.seed, 3000 if q else 40000, rnd])
+    vlib.exec_and_judge(ctx, "chat", rnd, "Trace_Chat", "B", sample_keys=keys)
